@@ -264,6 +264,13 @@ impl Tour {
             .splice(start_pos..end_pos, new_nodes)
             .collect();
 
+        // an infinite distance (overflow depot) cannot be updated by a difference
+        let new_dead_head_distance = if self.dead_head_distance == Distance::Infinity {
+            Tour::compute_dead_head_distance_of_nodes(&new_tour_nodes, &self.network)
+        } else {
+            new_dead_head_distance
+        };
+
         // 1) if new path contains maintenance then the new tour has a maintenance node. Otherwise:
         // 2) if the old tour had no maintenance node than the new tour has no maintenance node either.
         // 3) if the old tour had a maintenance node and the removed segment had no maintenance than the
